@@ -88,6 +88,13 @@ func runC18(c *Ctx) {
 				if an.MentionsField(info, l, "TLS13OnlyState", "KeyShareKeys") {
 					return true
 				}
+				// through an alias of the key store (keys := …State13.KeyShareKeys; keys.Ecdhe = k)
+				if an.Contains(l, func(y ast.Node) bool {
+					se, ok := y.(*ast.SelectorExpr)
+					return ok && an.TypeName(info.TypeOf(se.X)) == "KeySharePrivateKeys"
+				}) {
+					return true
+				}
 			}
 			return false
 		})
